@@ -17,6 +17,13 @@ VEC = "symplyphysics/core/vectors/vectors.py"
 
 
 def register(m):
+    FLT = "symplyphysics/laws/electricity/circuits/filters/filter_order_from_distortion_and_frequencies.py"
+    m("C03", "b3-free-form-expression-in-one-dict-regression", FLT,
+      "    applied_law = law.subs(filter_function, filter_function_)\n    result_expr = applied_law.subs({\n",
+      "    result_expr = law.subs({\n        filter_function: filter_function_,\n", "I6", note="the genuine defect repaired in ea9c9e8")
+    WLK = "symplyphysics/laws/electricity/circuits/couplers/impedances_for_wilkinson_microstrip_divider.py"
+    m("C03", "b3-solve-dict-values-unpacked", WLK, "    result_z1 = result[first_impedance]\n    result_z2 = result[second_impedance]\n    result_z3 = result[third_impedance]\n    result_z4 = result[fourth_impedance]\n",
+      "    result_z1, result_z2, result_z3, result_z4 = result.values()\n", "I7")
     # C09 N1: factories hand out fresh systems
     m("C09", "b2-transform-returns-argument", CSYS,
       ") -> CoordinateSystem:\n    new_coord_system = from_system.coord_system.create_new(",
